@@ -27,7 +27,8 @@ def run_property(pid: str, tier: str, root: str, quiet=False, write=True):
     mod = importlib.import_module(f"sa.props.{pid.lower()}")
     ctx = Ctx(prog, pid, tier)
     mod.check(ctx)
-    from sa import thorough
+    from sa import thorough, tables
+    tables.check_registered(ctx, pid)
     thorough.sweep(ctx)
     known = load_known()
     viol, hits = [], []
